@@ -209,11 +209,14 @@ def rule_validation(ctx):
                 n.ast.targets[0] if isinstance(n.ast, ast.Assign)
                 else n.ast.target)]
         dom = cfg.dominators()
+        # ... and on EVERY normal path through the setter (an early return
+        # ahead of it, e.g. for `m.prop *= x` where the new value is the
+        # stored array itself, lets in-place updates through unchecked)
         ok = bool(calls) and bool(stores) and all(
-            dom(calls[0], s) for s in stores)
+            dom(calls[0], s) for s in stores) and dom(calls[0], cfg.exit)
         n_set += 1
         ctx.check('C14.M3.setters', f'Model.{prop} setter validates first',
-                  ok, f'the setter of {prop} stores without validating '
+                  ok, f'the setter of {prop} stores (or returns) without validating '
                   'the new values first (with the right parameter name)',
                   ctx.where(mm, fn), sample={'setter': prop})
         val = [ast.unparse(s.ast.value) for s in stores]
@@ -414,6 +417,70 @@ def rule_taint(ctx):
     ctx.floor('C14.M4.backward', 8)
 
 
+def _active_props(mm, fn, lp, pv, u, st_):
+    """({names for which the use `u` is active}, all names), or None if a
+    condition cannot be evaluated over the property names alone."""
+    from ..core.tables import FiniteEval
+    from ..core.report import AnalysisError
+    cls = mm.cls('Model')
+    pl = [n for n in ast.walk(cls) if isinstance(n, ast.Assign) and
+          ast.unparse(n.targets[0]) == 'self._properties']
+    names = au.const_list(pl[0].value) if len(pl) == 1 else None
+    if not names:
+        return None
+    active = set()
+    for p_ in names:
+        env = {pv: p_, 'self._properties': list(names)}
+        fe = FiniteEval(env, where=mm.rel)
+        # locals of the loop body that are functions of the name alone
+        for a in lp.body:
+            if isinstance(a, ast.Assign) and len(a.targets) == 1 and \
+                    isinstance(a.targets[0], ast.Name) and a is not st_:
+                try:
+                    fe.env[a.targets[0].id] = fe.ev(a.value)
+                except (AnalysisError, Exception):
+                    pass
+        try:
+            on = all(bool(fe.ev(t)) == pol for t, pol in au.guards_of(u, lp))
+            q_, child = au.parent(u), u
+            while on and q_ is not None and q_ is not st_:
+                if isinstance(q_, ast.BoolOp) and isinstance(q_.op, ast.And):
+                    on = all(bool(fe.ev(o)) for o in q_.values
+                             if o is not child)
+                elif isinstance(q_, ast.IfExp) and child is not q_.test:
+                    on = bool(fe.ev(q_.test)) == (child is q_.body)
+                child, q_ = q_, au.parent(q_)
+        except AnalysisError:
+            return None
+        if on:
+            active.add(p_)
+    return active, names
+
+
+def _overridden(fn, u):
+    """`{**opts, 'log': x}`: the use of the mapping-dependent dict `opts`
+    replaces every mapping-dependent entry by something else."""
+    par = au.parent(u)
+    if not (isinstance(u, ast.Name) and isinstance(par, ast.Dict)):
+        return False
+    pos = [i for i, (k, v) in enumerate(zip(par.keys, par.values))
+           if k is None and v is u]
+    defs = [a for a in ast.walk(fn) if isinstance(a, ast.Assign) and
+            ast.unparse(a.targets[0]) == u.id and isinstance(a.value,
+                                                             ast.Dict)]
+    if not pos or len(defs) != 1:
+        return False
+    dep = {k.value for k, v in zip(defs[0].value.keys, defs[0].value.values)
+           if isinstance(k, ast.Constant) and 'self.map' in ast.unparse(v)}
+    if any(k is None and 'self.map' in ast.unparse(v)
+           for k, v in zip(defs[0].value.keys, defs[0].value.values)):
+        return False
+    later = {k.value for k, v in list(zip(par.keys, par.values))[pos[0]+1:]
+             if isinstance(k, ast.Constant) and
+             'self.map' not in ast.unparse(v)}
+    return bool(dep) and dep <= later
+
+
 def rule_unmapped(ctx):
     """mu_r and epsilon_r are not mapped.  Where Model treats all defined
     properties in one loop, anything that depends on the mapping
@@ -472,6 +539,20 @@ def rule_unmapped(ctx):
                         if isinstance(y, ast.Name)} & pdep:
                     inline = True
                 q_ = au.parent(q_)
+            # ... decided over the finite set of property names: the
+            # mapping-dependent treatment is active for EXACTLY the three
+            # mapped properties
+            act = _active_props(mm, fn, lp, pv, u, st_)
+            if act is not None and not _overridden(fn, u):
+                want = set(act[1][:3])
+                ctx.check('C14.M5.unmapped', f'Model.{meth}: properties '
+                          f'treated by the mapping at `{au.stext(st_)[:50]}`',
+                          act[0] == want, 'the mapping-dependent treatment '
+                          f'applies to {sorted(act[0])}; the mapped '
+                          f'properties are {sorted(want)} (mu_r / epsilon_r '
+                          'are never mapped, property_x/y/z always are)',
+                          ctx.where(mm, st_),
+                          sample={'method': meth, 'active': sorted(act[0])})
             n += 1
             ctx.check('C14.M5.unmapped', f'Model.{meth} `{au.stext(st_)[:60]}`',
                       guarded or inline, 'a mapping-dependent choice is '
